@@ -209,6 +209,22 @@ def install_probes():
 
     cl._ControlLoopRunner._process_tick = process_probe
 
+    from workflows.runtime.types import plugin as _plugin
+
+    orig_wfnt = _plugin.InternalRunAdapter.wait_for_next_task
+
+    async def wfnt_probe(self, running, pending, timeout=None):
+        # the control loop yields to other tasks here: states at this point are the ones an outside observer
+        # (ctx.to_dict(), running_steps(), a persistence layer) can actually see
+        tr = _CUR["trace"]
+        if tr is not None:
+            hook = tr.extra.get("at_yield")
+            if hook is not None:
+                hook(self)
+        return await orig_wfnt(self, running, pending, timeout)
+
+    _plugin.InternalRunAdapter.wait_for_next_task = wfnt_probe
+
     orig_write = basic.InternalAsyncioAdapter.write_to_event_stream
 
     async def write_probe(self, event):
@@ -352,6 +368,11 @@ async def _drive(spec, tr, wf, ctx=None, start=True):
     except BaseException as e:  # noqa: BLE001
         tr.outcome = {"kind": "error", "type": type(e).__name__, "msg": str(e)}
     rec.add("handler_done")
+    try:
+        st = await handler.ctx.store.get_state()
+        tr.extra["final_state"] = jsonable(dict(st.to_dict()) if hasattr(st, "to_dict") else st.model_dump())
+    except Exception as e:  # noqa: BLE001
+        tr.extra["final_state_err"] = repr(e)
     tr.extra["vt_handler_done"] = vclock.vnow()
     await consumer
     tr.consumer_done = True
@@ -399,3 +420,29 @@ def run_case(spec, *, extra=None, wf=None, ctx_factory=None, start=True) -> Trac
     finally:
         _CUR["trace"] = None
     return tr
+
+
+def run_with_snapshots(spec, *, every=True, only_k=None, extra=None):
+    """Run a case taking ctx.to_dict() (through JSON) at the control loop's yield points (entry of wait_for_next_task).
+    Returns (trace, snaps) with snaps[i] = {"k": i, "ticks": <ticks reduced so far>, "snap": dict | None, "err": str | None}."""
+    snaps = []
+
+    def at_yield(adapter):
+        tr = _CUR["trace"]
+        i = len(snaps)
+        ent = {"k": i, "ticks": len(tr.ticks), "snap": None, "err": None, "t": vclock.vnow()}
+        runner = next((r for r in reversed(tr.runners) if r.adapter.run_id == adapter.run_id), None)
+        if runner is not None:
+            ent["wakeups"] = [type(t[2]).__name__ for t in runner.scheduled_wakeups]
+            ent["buffer"] = [type(t).__name__ for t in runner.tick_buffer]
+        if only_k is None or only_k == i:
+            try:
+                ent["snap"] = json.loads(json.dumps(tr.handler.ctx.to_dict()))
+            except Exception as e:  # noqa: BLE001
+                ent["err"] = repr(e)
+        snaps.append(ent)
+
+    ex = dict(extra or {})
+    ex["at_yield"] = at_yield
+    tr = run_case(spec, extra=ex)
+    return tr, snaps
